@@ -506,6 +506,13 @@ def _report_e3(ctx, item, rep, minimise=True):
         if sig in seen:
             continue
         seen.add(sig)
+        if sig == c04_e3.INCOMPLETE_HASH_SIGNATURE and not _registered(sig):
+            # finding C04-incomplete-stored-hash (findings.d), timing dependent; allowed by the property text
+            # ("declared by an executed step"); reported under its own signature once registered
+            ctx.count("e3:finding:incomplete-stored-hash:observed-in-a-random-case")
+            ctx.notes.append(f"finding C04-incomplete-stored-hash observed (seed {item.get('seed')} "
+                             f"{item.get('flavour')}): {f['detail'][:300]}")
+            continue
         if sig == c04_e3.AMENDED_STATIC_SIGNATURE and not _registered(sig):
             # finding C04-amended-static-redeclared (findings.d), schedule dependent; reported under its own signature
             # once the coordinator has registered it, until then recorded in the evidence only (as D38 was)
